@@ -87,6 +87,21 @@ def harnesses(t):
         return True  # conditional jumps / callq: the property is silent, either behaviour is accepted
     return out.operands == ops
 ''', timeout=T, prelude=PRE, key="observer_direct", note="direct branch with symbolic target; mnemonic symbolic"))
+    hs.append(ch.H("c18/observer_two_ranges", '''def observer_two_ranges(t: int, tp: bool, lo1: int, hi1: int, lo2: int, hi2: int, jmp: bool) -> bool:
+    """
+    pre: t >= 0 and lo1 >= 0 and hi1 >= 0 and lo2 >= 0 and hi2 >= 0
+    post: _
+    """
+    # two observers with DIFFERENT ranges look at the same target one after the other (two rules in one process):
+    # each verdict must come from its own range
+    mn = "jmp" if jmp else "call"
+    ok = True
+    for lo, hi in ((lo1, hi1), (lo2, hi2), (lo1, hi1)):
+        obs = ValidAddrObserver(ValidAddrRange(min_addr=HexStr(False, lo), max_addr=HexStr(True, hi)))
+        out = obs.observe_instruction(Instruction(addr="10", mnemonic=mn, operands=[HexStr(tp, t)]))
+        ok = ok and out is not None and (out.operands == ["valid_addr"]) == (lo <= t <= hi)
+    return ok
+''', timeout=T, prelude=PRE, key="observer_two_ranges", note="same target under two different ranges in one process"))
     hs.append(ch.H("c18/observer_indirect", '''def observer_indirect(lo: int, hi: int, which: int, x: str) -> bool:
     """
     pre: lo >= 0 and hi >= 0 and 0 <= which <= 2 and len(x) == 2
